@@ -83,13 +83,24 @@ def obligations(tier):
     obs.append(Ob('C17.parse_header.one', 'harness.C17', 'parse_header_items', bind={'count': 1, 'nn': 6, 'nw': 11, 'sep': 0},
                   timeout=t, functions=PARSE, stubs=[S_REF], bounds='1 coding: 6 names x 11 weight spellings',
                   claim='no coding with weight 0 is returned; a coding with non-zero weight is returned'))
-    obs.append(Ob('C17.parse_header.two', 'harness.C17', 'parse_header_items', bind={'count': 2, 'nn': 6 if not q else 4, 'nw': 11 if not q else 6},
-                  timeout=t, functions=PARSE, stubs=[S_REF],
-                  bounds=f'2 codings: {4 if q else 6} names x {6 if q else 11} weight spellings each, 3 separators',
-                  claim='as above, and the result is ordered by descending weight'))
-    obs.append(Ob('C17.parse_header.three', 'harness.C17', 'parse_header_items', bind={'count': 3, 'nn': 3 if q else 4, 'nw': 4 if q else 6, 'sep': 1},
-                  timeout=t, functions=PARSE, stubs=[S_REF],
-                  bounds=f'3 codings: {3 if q else 4} names x {4 if q else 6} weights each', claim='as above'))
+    nn2, nw2 = (4, 6) if q else (6, 11)
+    for sep in ([None] if q else range(3)):
+        bind = {'count': 2, 'nn': nn2, 'nw': nw2}
+        if sep is not None:
+            bind['sep'] = sep
+        obs.append(Ob('C17.parse_header.two' + ('' if sep is None else f'.sep{sep}'), 'harness.C17', 'parse_header_items', bind=bind,
+                      timeout=t, twin=(sep in (None, 0)), functions=PARSE, stubs=[S_REF],
+                      bounds=f'2 codings: {nn2} names x {nw2} weight spellings each, ' + ('3 separators' if sep is None else f'separator {sep}'),
+                      claim='as above, and the result is ordered by descending weight'))
+    nn3, nw3 = (3, 4) if q else (4, 6)
+    for n0 in ([None] if q else range(nn3)):
+        bind = {'count': 3, 'nn': nn3, 'nw': nw3, 'sep': 1}
+        if n0 is not None:
+            bind['n0'] = n0
+        obs.append(Ob('C17.parse_header.three' + ('' if n0 is None else f'.first{n0}'), 'harness.C17', 'parse_header_items', bind=bind,
+                      timeout=t, twin=(n0 in (None, 0)), functions=PARSE, stubs=[S_REF],
+                      bounds=f'3 codings: {nn3} names x {nw3} weights each' + ('' if n0 is None else f', first name fixed ({n0})'),
+                      claim='as above'))
     # ---- negotiation
     nn, nw = (4, 4) if q else (6, 11)
     hdr = f'Accept-Encoding absent or 1..2 codings ({nn} names x {nw} weight spellings)'
